@@ -38,7 +38,7 @@ type plCase struct {
 }
 
 const c12Rule = "case = protocol pipeline (ipfix | nf9 | nf5 | sflow), 1..16 real worker goroutines, UDP size (mostly 1500), 1..6 exporters, and phases: announce phases (each template key at most once) " +
-	"alternating with data phases of 20..800 datagrams with strongly mixed sizes (tens of octets next to ~1400) and unique (exporter, sequence number), incl. unknown-template, truncated, corrupted, reserved-id, garbage and oversize datagrams; " +
+	"alternating with data phases of 20..800 datagrams with strongly mixed sizes (tens of octets next to ~1400) and unique (exporter, sequence number), incl. identical template refreshes, unknown-template, truncated, corrupted, reserved-id, garbage and oversize datagrams; " +
 	"injected exactly as the receive loop does (pooled buffer, copy, send on the real UDP channel), real MQ channel drained concurrently, workers joined per phase; half of the cases run on the -race build of the driver; " +
 	"oracle = per phase the multiset of published payloads equals, byte for byte, the payloads obtained by decoding each datagram on its own in the harness against a replica cache holding the templates of earlier phases " +
 	"(sFlow: after blanking the collection timestamp); no race report, no crash; DecodedCount delta within [decodes without error, decodes returning a message]; " +
@@ -55,6 +55,7 @@ type plKey struct {
 	exp  int
 	tpl  wire.Template
 	sets []wire.Set // pre-generated data sets
+	ann  []byte     // the announcement datagram (re-sent unchanged as a periodic template refresh)
 }
 
 func genPipeline(t *rapid.T, proto string, envs map[string]*wire.GenEnv, maxPhaseLen int) plCase {
@@ -139,7 +140,8 @@ func genPipeline(t *rapid.T, proto string, envs map[string]*wire.GenEnv, maxPhas
 					kind = "opt"
 				}
 				m.Sets = []wire.Set{{Kind: kind, Tpls: []wire.Template{key.tpl}}}
-				ann = append(ann, plDatagram{Exp: key.exp, Data: m.Bytes(), Class: "announce"})
+				key.ann = m.Bytes()
+				ann = append(ann, plDatagram{Exp: key.exp, Data: key.ann, Class: "announce"})
 				// pre-generate data sets of different sizes for this key
 				ns := rapid.IntRange(2, 4).Draw(t, "npregen")
 				for s := 0; s < ns; s++ {
@@ -196,6 +198,10 @@ func genPipeline(t *rapid.T, proto string, envs map[string]*wire.GenEnv, maxPhas
 						b[pos] ^= byte(rapid.IntRange(1, 255).Draw(t, "corruptxor"))
 						class = "corrupted"
 					}
+				case 5, 6:
+					// periodic template refresh: the identical announcement again, concurrently with data that uses
+					// the template (the cache content does not change, so the phase stays order-independent)
+					b, class = key.ann, "refresh"
 				case 4:
 					rm := m
 					rm.Sets = append([]wire.Set{{Kind: "raw", RawID: uint16(rapid.IntRange(4, 255).Draw(t, "rid")), RawBody: rapid.SliceOfN(rapid.Byte(), 0, 30).Draw(t, "rbody")}}, m.Sets...)
